@@ -514,7 +514,8 @@ def dObj (doc : J) (k : List (String × J) → DR (List (String × J))) : DR J :
 def kuNext (ku camel : Bool) (desL : List Mapper) : Bool := ku && !(desL.any isEnumMapper) && !camel
 
 /-- the undefined keys handed to the constructor: keys of the document that are not field names, when
-    `keep_undefined` is on and the class's own `__dict__` does not forbid additional properties -/
+    `keep_undefined` is on and the class does not forbid additional properties (since /repo 0225533
+    `getattr`: own or inherited; before, the class's own `__dict__` only) -/
 def extrasOf (ku closedOwn : Bool) (names : List String) (kvs : List (String × J)) : List (String × J) :=
   if ku && !closedOwn then kvs.filter (fun p => !names.contains p.1) else []
 
@@ -545,7 +546,7 @@ def deserFld (S : StrFns) (camel ku : Bool) (M : MDict) (strict : Bool) (kvs : L
   | .nested n opt shape ci fs, rest =>
     dNested n opt shape (procInput S M strict kvs n)
       (fun y => dObjK y ci.closedAny
-        (extrasOf (kuNext ku camel ci.desL) ci.closedOwn (fs.map Fld.name)) fun kvs' =>
+        (extrasOf (kuNext ku camel ci.desL) ci.closedAny (fs.map Fld.name)) fun kvs' =>
         deserFields S camel (kuNext ku camel ci.desL)
           (aggregate S false ci.desL fs (subDeser M n) camel) false kvs' fs) rest
 termination_by structural f => f
@@ -554,11 +555,11 @@ end
 /-- `deserialize_structure_internal(cls, doc, mapper=ov, camel_case_convert, use_strict_mapping,
     keep_undefined=ku)` -/
 def deserK (S : StrFns) (camel ku : Bool) (c : Cls) (ov : Option MDict) (strict : Bool) (doc : J) : DR J :=
-  dObjK doc c.closedAny (extrasOf (kuNext ku camel c.desL) c.closedOwn (c.fields.map Fld.name)) fun kvs =>
+  dObjK doc c.closedAny (extrasOf (kuNext ku camel c.desL) c.closedAny (c.fields.map Fld.name)) fun kvs =>
     deserFields S camel (kuNext ku camel c.desL) (aggregate S false c.desL c.fields ov camel) strict kvs c.fields
 
-/-- the same with `keep_undefined=False` (what `Deserializer(cls).deserialize` passes for a class that
-    allows additional properties) -/
+/-- the same with `keep_undefined=False` (what `Deserializer(cls).deserialize` passes by default — for
+    every class since /repo 005d815; before, `True` for a class that forbids additional properties) -/
 def deser (S : StrFns) (camel : Bool) (c : Cls) (ov : Option MDict) (strict : Bool) (doc : J) : DR J :=
   deserK S camel false c ov strict doc
 
